@@ -37,6 +37,15 @@ impl<'a> SocketRead<'a> {
 
     pub fn done(&mut self) -> io::Result<usize> {
         let fd = unsafe { BorrowedFd::borrow_raw(self.io_data.fd) };
+        // the result of the system call is reported at the call itself: a twin of `read` that shadows it
+        #[cfg(may_verif)]
+        let vflag = &self.io_data.io_flag;
+        #[cfg(may_verif)]
+        let read = |fd: BorrowedFd, buf: &mut [u8]| {
+            let r = read(fd, buf);
+            crate::verif::sys(vflag, "sys.read", &r);
+            r
+        };
         loop {
             co_io_result(self.is_coroutine)?;
 
